@@ -110,6 +110,7 @@ REQUIRED_COUNTERS = {
     "conv.profiles": 20,
     "crh.calls": 1000,
     "p2h.calls": 500,
+    "concurrent.first_use_children": 4,
     "isa.level_checks": 100,
     "contract.ic_shape": 20000,
     "contract.iwv_nonnegative": 2000,
@@ -1525,6 +1526,86 @@ def fixed_cases():
     ]
 
 
+FIRST_USE = r"""
+import json, random, sys, threading, time
+import numpy as np
+from typhon.physics import atmosphere as atm
+variant = int(sys.argv[1])
+FN = atm.__file__
+p = np.array([90000., 50000., 20000., 5000., 300.])
+z = np.array([0., 5000., 11000., 20000., 40000.])
+JOBS = [("pressure2height(p)", lambda: atm.pressure2height(p)),
+        ("standard_atmosphere(z)", lambda: atm.standard_atmosphere(z)),
+        ("standard_atmosphere(p, 'pressure')", lambda: atm.standard_atmosphere(p, coordinates='pressure')),
+        ("standard_atmosphere(z, 'height')", lambda: atm.standard_atmosphere(z, coordinates='height'))]
+NT = 32
+DELAYS = [0, 0, 0.0005, 0.001, 0.002, 0.004]
+slow = threading.local()
+traced = [0]
+def tracer(frame, event, arg):
+    if frame.f_code.co_filename != FN:
+        return None
+    if event == "line":
+        traced[0] += 1
+        time.sleep(slow.rng.choice(DELAYS))
+    return tracer
+out, err = {}, {}
+def worker(k):
+    slow.rng = random.Random(variant * 1000 + k)
+    time.sleep(0.0005 * k)
+    name, job = JOBS[(k + variant) % len(JOBS)]
+    try:
+        out[k] = (name, np.asarray(job(), dtype=float))
+    except BaseException as exc:
+        err[k] = (name, repr(exc))
+threading.settrace(tracer)
+sys.setswitchinterval(1e-6)
+ths = [threading.Thread(target=worker, args=(k,), daemon=True) for k in range(NT)]
+for t in ths: t.start()
+for t in ths: t.join(60)
+threading.settrace(None)
+alive = sum(t.is_alive() for t in ths)
+ref = {name: np.asarray(job(), dtype=float) for name, job in JOBS}
+bad = [[k, name, got.tolist(), ref[name].tolist()] for k, (name, got) in sorted(out.items())
+       if got.shape != ref[name].shape or not np.allclose(got, ref[name], rtol=1e-12, atol=0, equal_nan=True)]
+print("FIRSTUSE " + json.dumps({"errors": [[k, n, e] for k, (n, e) in sorted(err.items())], "mismatch": bad,
+                                "alive": alive, "lines": traced[0], "threads": NT}))
+"""
+
+
+def first_use_concurrent(rec, variant):
+    """Process history x schedule: the first calls of a fresh interpreter come from 32 threads whose
+    starts are staggered by 0.5 ms; a line tracer on typhon/physics/atmosphere.py makes every thread wait
+    0 - 4 ms (seeded per thread) at every statement (delay injection).  Oracle: no call raises and every answer
+    equals the answer of the same call made afterwards, alone."""
+    import json, subprocess, sys
+    case = {"kind": "first-use", "variant": variant}
+    rec.ev()
+    try:
+        r = subprocess.run([sys.executable, "-c", FIRST_USE, str(variant)], capture_output=True,
+                           text=True, timeout=180)
+    except subprocess.TimeoutExpired:
+        rec.count("concurrent.first_use_child_timeout")
+        return
+    doc = None
+    for line in r.stdout.splitlines():
+        if line.startswith("FIRSTUSE "):
+            doc = json.loads(line[9:])
+    if doc is None or doc["alive"]:
+        rec.count("concurrent.first_use_child_undecided")
+        rec.note("first-use child gave no verdict: " + r.stderr[-300:])
+        return
+    rec.count("concurrent.first_use_children")
+    rec.count("concurrent.first_use_thread_calls", doc["threads"])
+    rec.count("concurrent.first_use_statements_delayed", doc["lines"])
+    if doc["errors"]:
+        rec.violation("first-use-concurrent", case, {"what": "a call raised", "errors": doc["errors"][:3]})
+    elif doc["mismatch"]:
+        rec.violation("first-use-concurrent", case, {"what": "answer differs from the same call made alone",
+                                                     "first": doc["mismatch"][0]})
+    rec.nontriv(["first-use", variant], variant)
+
+
 def run_shard(spec, rec):
     from vt.models import atmosphere_model as am
     if not am.LD_OK:
@@ -1532,6 +1613,9 @@ def run_shard(spec, rec):
         return
     install_contracts(rec)
     kind = spec["kind"]
+    if kind in ("p2h", "isa"):
+        for variant in range(4):
+            first_use_concurrent(rec, variant + (4 if kind == "isa" else 0))
     if spec["shard"] == 0 and kind in ("ic", "crh"):
         for case in fixed_cases():
             if case["kind"] == kind:
@@ -1556,4 +1640,7 @@ def replay(case, rec):
         rec.inconc("numpy.longdouble has no 64-bit mantissa on this platform")
         return
     install_contracts(rec)
+    if case.get("kind") == "first-use":
+        first_use_concurrent(rec, case["variant"])
+        return
     run_case(rec, case, shrink=False)
